@@ -35,7 +35,7 @@ def judge(records, required, timeout=1800, module="Judge", cfg=CFG):
     for r in records:
         rr = {"k": "rec"}
         for k, v in r.items():
-            if isinstance(v, (bool, int, str)):
+            if k != "k" and isinstance(v, (bool, int, str)):      # "k" is the judge's own record kind
                 rr[k] = v
         payload.append(rr)
     with open(path, "w") as fh:
